@@ -84,35 +84,37 @@ def canonical_json(obj):
 
 class Script:
     """What the application does with the parts: ops[i] is the list of calls made on the i-th
-    yielded part (parts beyond the list are skipped); `parts` bounds the number of next() calls."""
+    yielded part (parts beyond the list are skipped); `max_next` bounds the number of next() calls."""
 
-    def __init__(self, ops, max_next=None):
+    def __init__(self, ops, max_next=None, literal=False):
         self.ops = ops
         self.max_next = max_next
+        self.literal = literal      # taken from a behaviour of the specification: every call is made as it stands
 
     def to_json(self):
         return {'ops': [[[x if not isinstance(x, bytes) else list(x) for x in op] for op in part] for part in self.ops],
-                'max_next': self.max_next}
+                'max_next': self.max_next, 'literal': self.literal}
 
     @staticmethod
     def from_json(j):
         return Script([[tuple(bytes(x) if isinstance(x, list) else x for x in op) for op in part] for part in j['ops']],
-                      j.get('max_next'))
+                      j.get('max_next'), j.get('literal', False))
 
 
 class Recorder:
-    """Runs a script on a real form object (sync or async flavour) and logs one event per public
-    call at its return.  All falcon-facing calls go through `call`, which awaits when needed."""
+    """Runs a script on a real form object (run_sync / run_async are the same loop in the two
+    flavours) and logs one event per public call at its return, error path included.  A call the
+    script asks for is skipped when the observed part does not allow it (get_text on a content type
+    outside the encoder's pool, get_media on anything but an untouched JSON part); after a parse
+    error of a buffered accessor the part is left alone and the iteration goes on."""
 
-    def __init__(self, script, json_ok, is_async):
+    def __init__(self, script, json_ok):
         self.script = script
         self.json_ok = json_ok          # get_media may be used (undamaged body)
-        self.is_async = is_async
         self.events = []
         self.stop = None                # 'end' | 'error' | 'exc' | None
         self.pending = None             # the first MultipartParseError (re-raised at the end of a full-stack run)
 
-    # -- one consumption call on a part; returns False when the part must not be touched again
     def _classify(self, e, ex):
         import falcon
         if isinstance(ex, falcon.errors.MultipartParseError):
@@ -140,6 +142,8 @@ class Recorder:
         return ctype
 
     def applicable(self, op, ctype, touched):
+        if self.script.literal:
+            return True
         if op[0] == 'get_text':
             return ctype in KNOWN_TYPES
         if op[0] == 'get_media':
@@ -353,8 +357,7 @@ def execute(stack, body, b, lim, script, variant, json_ok=True):
     hang_after = 30.0 if _hangs[0] == 0 else 3.0
     body = bytes(body)
     ctype = content_type_header(b, variant.get('quote', False))
-    is_async = stack in ('h-async', 'asgi')
-    rec = Recorder(script, json_ok, is_async)
+    rec = Recorder(script, json_ok)
     chunks = variant.get('chunks')
     try:
         with bytesrc.watchdog(hang_after):
@@ -640,7 +643,7 @@ def script_of(ev):
             cur.append(('read_until', bytes(e['d']), e['n'], e['c']))
         else:
             cur.append((e['op'],))
-    return Script(ops, nnext)
+    return Script(ops, nnext, literal=True)
 
 
 def compare(want, got, edited):
@@ -748,7 +751,9 @@ def run(ctx):
     r = action_coverage(ctx, 'MC_Multipart', 'MC_MultipartCov.cfg')
     ctx.require_coverage(r, X_ACTIONS)
     ctx.tlc('MC_Multipart', ctx.pick('MC_MultipartQ.cfg', 'MC_Multipart.cfg'), timeout=ctx.pick(600, 2400))
-    ctx.tlc('MC_Multipart', ctx.pick('MC_MultipartLim.cfg', 'MC_MultipartLimT.cfg'), timeout=ctx.pick(600, 2400))
+    ctx.tlc('MC_Multipart', 'MC_MultipartLim.cfg', timeout=900)
+    if not ctx.quick:
+        ctx.tlc('MC_Multipart', 'MC_MultipartLimT.cfg', timeout=2400)       # 70-byte boundary, preamble / epilogue
     ctx.tlc('MC_Multipart', ctx.pick('MC_MultipartCorruptQ.cfg', 'MC_MultipartCorrupt.cfg'), timeout=ctx.pick(600, 2400))
     rb = ctx.tlc('MC_Multipart', 'MC_MultipartBad.cfg', must_hold=False, count=False, workers=4, timeout=300)
     if rb.violated != 'ParseOfEncodeIsForm':
@@ -814,7 +819,7 @@ def run(ctx):
 
     # ---- leg B: bigger seeded cases, recorded and judged by TLC -----------------------------------
     seen = {}            # trace digest -> (trace, case)
-    ncases = ctx.pick(1100, 16000)
+    ncases = ctx.pick(1500, 12000)
     per = ctx.pick(6, 8)
     runs = 0
     for i in range(ncases):
